@@ -416,7 +416,7 @@ impl LexiconReader {
                 });
             }
 
-            if e.right_id >= self.max_right {
+            if e.right_id >= self.max_right || (e.should_index() && e.right_id < 0) {
                 return ctx.err(BuildFailure::InvalidFieldSize {
                     actual: e.right_id as _,
                     expected: self.max_right as _,
